@@ -299,7 +299,15 @@ pub(super) fn scripts(cx: &mut Ctx, rng: &mut Rng, n: u64) {
             match (&want, &reply) {
                 (Some(w), r) if show_resp(r) != *w => cx.out.violation("C16:script:raised-error-differs-from-client-error", "a script ended by a failing redis.call does not answer the error reply the client path gives for the same command",
                     json!({"script": src, "eval_reply": show_resp(r), "direct_reply_of_the_raising_statement": w})),
-                (_, RespValue::Error(_)) => {}
+                (_, RespValue::Error(t)) => {
+                    // whatever ended the script, the client gets an error reply that starts with an upper-case code word
+                    // (the command's own error verbatim, `ERR <text>` for a text without one)
+                    let w = t.split(' ').next().unwrap_or("");
+                    if w.is_empty() || !w.bytes().all(|b| b.is_ascii_uppercase()) {
+                        cx.out.violation("C16:script:error-reply-without-code-word", "a script ended by an error answers an error reply that does not start with an upper-case code word (the client path always does: the command's code word, or ERR)",
+                            json!({"script": src, "eval_reply": t.to_string()}));
+                    }
+                }
                 (_, r) => cx.out.violation("C16:script:halted-script-without-error-reply", "a script that stopped before its last statement did not answer an error", json!({"script": src, "eval_reply": show_resp(r)})),
             }
         }
